@@ -527,6 +527,19 @@ public:
     order.clear();
   }
 
+  // coarse observable outcome: multiset of live block sizes (seqx counts
+  // distinct outcomes in a fixed 4M-slot table, so this must stay small)
+  uint64_t outcome_sig() const {
+    std::vector<size_t> v;
+    for (auto& kv : live)
+      v.push_back(kv.second.n);
+    std::sort(v.begin(), v.end());
+    uint64_t h = 0xC09;
+    for (size_t x : v)
+      h = sx::mix(h, x);
+    return h;
+  }
+
   std::string key() const {
     std::ostringstream o;
     o << "L:";
@@ -651,8 +664,9 @@ static sx::BfsCase sized_case(const std::string& name, const std::string& comp,
     k << " " << api->internals(T);
     if (cross || sh.reuse_seen || api->second_page(T))
       sx::mark_nontrivial();
-    sx::outcome(sx::hash_str(k.str()) ^ (cross ? 0x10 : 0) ^
-                (uint64_t)sh.reuse_seen << 8);
+    sx::outcome(sh.outcome_sig() ^ (cross ? 0x10 : 0) ^
+                (api->second_page(T) ? 0x20 : 0) ^
+                (uint64_t)std::min(sh.reuse_seen, 3) << 8);
     return k.str();
   };
   return c;
@@ -824,8 +838,9 @@ static sx::BfsCase bump_case(const std::string& name, const std::string& comp,
     std::string k = sh.key() + " " + api->internals(T);
     if (partial || after_clear || sh.heap_blocks || api->second_page(T))
       sx::mark_nontrivial();
-    sx::outcome(sx::hash_str(k) ^ (partial ? 0x20 : 0) ^
-                (uint64_t)sh.heap_blocks << 8);
+    sx::outcome(sh.outcome_sig() ^ (partial ? 0x20 : 0) ^
+                (after_clear ? 0x40 : 0) ^ (api->second_page(T) ? 0x80 : 0) ^
+                (uint64_t)std::min(sh.heap_blocks, 3) << 8);
     sh.live.clear(); // blocks die with the heap object
     return k;
   };
@@ -1014,7 +1029,8 @@ static sx::BfsCase pagepool_case(int T, int qd, int td) {
     }
     if (cross || sh.reuse_seen)
       sx::mark_nontrivial();
-    sx::outcome(sx::hash_str(k.str()) ^ (uint64_t)sh.reuse_seen << 8);
+    sx::outcome(sh.outcome_sig() ^ (cross ? 0x10 : 0) ^
+                (uint64_t)std::min(sh.reuse_seen, 3) << 8);
     return k.str();
   };
   return c;
@@ -1117,8 +1133,17 @@ static sx::BfsCase perbackend_case(int qd, int td) {
       }
     if (freelist || split || bumpback)
       sx::mark_nontrivial();
-    sx::outcome(sx::hash_str(k.str()) ^ (freelist ? 1 : 0) ^ (split ? 2 : 0) ^
-                (bumpback ? 4 : 0) ^ (oom ? 8 : 0));
+    {
+      std::vector<unsigned> v;
+      for (auto& lv : live)
+        v.push_back(lv.second);
+      std::sort(v.begin(), v.end());
+      uint64_t hsig = pb.nextLoc.load() >> 17; // 128 KiB buckets
+      for (unsigned x : v)
+        hsig = sx::mix(hsig, x);
+      sx::outcome(hsig ^ (freelist ? 1 : 0) ^ (split ? 2 : 0) ^
+                  (bumpback ? 4 : 0) ^ (oom ? 8 : 0));
+    }
     return k.str();
   };
   return c;
@@ -1269,7 +1294,7 @@ static sx::BfsCase pts_objects_case(int qd, int td) {
     k << (sh.reuse_seen ? " reused" : "");
     if (sh.reuse_seen)
       sx::mark_nontrivial();
-    sx::outcome(sx::hash_str(k.str()));
+    sx::outcome(sh.outcome_sig() ^ (sh.reuse_seen ? 0x100 : 0));
     // the shadow's blocks die with the objects (Guard); forget them first
     sh.live.clear();
     return k.str();
@@ -1537,19 +1562,19 @@ int main(int argc, char** argv) {
   // --- FixedSizeHeap through the global factory
   bfs.push_back(sized_case("FixedSizeHeap sizes {1,9}, 2 threads",
                            "FixedSizeHeap", {1, 9}, 2, B_HEAP_OR_PAGE, fixedG,
-                           4, 9));
+                           4, 10));
   bfs.push_back(sized_case("FixedSizeHeap sizes {7,8,16,24}, 2 threads",
                            "FixedSizeHeap", {7, 8, 16, 24}, 2, B_HEAP_OR_PAGE,
                            fixedG, 3, 6));
   bfs.push_back(sized_case("FixedSizeHeap size 8, 3 threads", "FixedSizeHeap",
-                           {8}, 3, B_HEAP_OR_PAGE, fixedG, 4, 9));
+                           {8}, 3, B_HEAP_OR_PAGE, fixedG, 4, 11));
   // --- the same heap stack as a fresh object, 2 resp. 3 elements per page
   bfs.push_back(sized_case(
       "SizedHeap (fresh object) element 1MiB-8 (2 per page), 2 threads",
-      "SizedHeap", {(1u << 20) - 8}, 2, B_PAGE, fixedF, 5, 10));
+      "SizedHeap", {(1u << 20) - 8}, 2, B_PAGE, fixedF, 5, 12));
   bfs.push_back(sized_case(
       "SizedHeap (fresh object) element 699048 (3 per page), 2 threads",
-      "SizedHeap", {699048}, 2, B_PAGE, fixedF, 5, 9));
+      "SizedHeap", {699048}, 2, B_PAGE, fixedF, 5, 10));
   // --- Pow_2_BlockHeap, every class boundary
   for (unsigned k = 3; k <= 16; ++k) {
     std::vector<size_t> sz;
@@ -1579,7 +1604,7 @@ int main(int argc, char** argv) {
       "BumpWithMallocHeap",
       {1, 8, 9, 4096, M, PAGE - 16, PAGE - 8, PAGE - 7, 3 * M}, {}, 1,
       B_HEAP_OR_PAGE,
-      [] { return std::unique_ptr<BumpApi>(new IterAllocApi()); }, 4, 5, 2));
+      [] { return std::unique_ptr<BumpApi>(new IterAllocApi()); }, 4, 6, 2));
   // --- page pool
   bfs.push_back(pagepool_case(2, 4, 6));
   // --- per-thread storage
